@@ -1,5 +1,87 @@
 import family
 
 
+def has_tags(wf):
+    found = []
+
+    def walk(t):
+        if t['t'] in ('opt', 'oneof'):
+            found.append(t)
+        if t['t'] == 'map':
+            for v in t['kids'].values():
+                walk(v)
+        elif t['t'] == 'list':
+            for v in t['kids']:
+                walk(v)
+        elif t['t'] == 'oneof':
+            for v in t['opts'].values():
+                walk(v)
+    for st in wf['steps'].values():
+        for t in st['fields'].values():
+            walk(t)
+    for t in wf['outputs'].values():
+        walk(t)
+    return bool(found)
+
+
+def tag_shapes(rng, quick):
+    """every tag kind x placement x outcome combination of two sources a and b, consumed by step c and by the output"""
+    import itertools
+    import gen
+    from check_c01 import okoc
+    from vlib import lit, ref, tmap, tlist, opt, oneof, ordisabled, fexpr
+    items = []
+    two = lambda wait: {'t': 'opt', 'wait': wait, 'e': fexpr('$.steps.a.outputs.success.tok + $.steps.b.outputs.success.tok',
+                                                            ['steps.a.outputs.success.tok', 'steps.b.outputs.success.tok'])}
+    tags = {
+        'wait1': lambda: opt('steps.a.outputs.success', True),
+        'wait2': lambda: two(True),
+        'soft1': lambda: opt('steps.a.outputs.success', False),
+        'oneof': lambda: oneof('kind', {'ok': ref('steps.a.outputs.success'), 'other': ref('steps.a.outputs.alt'), 'bad': ref('steps.a.outputs.error')}),
+        'ordis': lambda: ordisabled('steps.a.outputs.success'),
+        'oneof-with-wait': lambda: oneof('kind', {'ok': tmap({'v': ref('steps.a.outputs.success.tok'), 'w': opt('steps.b.outputs.success', True)}),
+                                                  'bad': tmap({'v': ref('steps.a.outputs.error.reason')})}),
+    }
+    placements = {
+        'top': lambda t: {'x': t},
+        'list': lambda t: {'l': tlist([lit('z'), tmap({'x': t})])},
+        'map': lambda t: {'m': tmap({'inner': tmap({'x': t})})},
+        'pair': lambda t: {'x': t, 'y': opt('steps.b.outputs.success', True)},
+    }
+    outcomes = [('success', 'success'), ('error', 'success'), ('success', 'error'), ('alt', 'success'), ('disabled', 'success'), ('success', 'deployfail')]
+    combos = list(itertools.product(tags, placements, outcomes))
+    if quick:
+        rng.shuffle(combos)
+        combos = combos[:40]
+    for tg, pl, (oa, ob) in combos:
+        def mk_oc(o):
+            if o == 'disabled':
+                return dict(okoc(), enabled=False)
+            if o == 'deployfail':
+                return dict(okoc(), deploy='fail')
+            return dict(okoc(), beh=o)
+        steps = {}
+        for sid, o in (('a', oa), ('b', ob)):
+            f = {'input': tmap({'id': lit(sid)})}
+            if o == 'disabled':
+                f['enabled'] = lit(False)
+            steps[sid] = {'kind': 'plugin', 'pstep': 'work', 'fields': f}
+        steps['c'] = {'kind': 'plugin', 'pstep': 'nowork', 'fields': {'input': tmap({'id': lit('c'), 'deps': tmap(placements[pl](tags[tg]()))})}}
+        wf = {'steps': steps, 'outputs': {'success': tmap(dict(placements[pl](tags[tg]()), c=ref('steps.c.outputs.success.tok')))}}
+        oc = {'a': mk_oc(oa), 'b': mk_oc(ob), 'c': okoc()}
+        script = {sid: {'deploy': {'fail': oc[sid]['deploy'] == 'fail'},
+                        'exec': {'out': oc[sid]['beh'], 'delay_ms': rng.choice([0, 2, 6])}} for sid in ('a', 'b', 'c')}
+        items.append({'wf': wf, 'oc': oc, 'script': script, 'input': {'x': 'x', 'n': 1, 'flag': True},
+                      'schedule': gen.noise_schedule(rng, max_us=300), 'at': '%s/%s a=%s b=%s' % (tg, pl, oa, ob)})
+    return items
+
+
 def run(ctx):
-    family.run_family_check(ctx, 'C15', n_quick=40, n_thorough=400)
+    items, findings, stats = family.run_family_check(ctx, 'C15', n_quick=20, n_thorough=300, extra_items=lambda rng: tag_shapes(rng, ctx.quick))
+    # in a workflow that uses the tags, a result that differs from the declarative meaning (which applies the tag
+    # rules) or an evaluation that fails although every required source was decided is a C15 violation as well
+    for f in findings:
+        it = items[f['item']]
+        if f['prop'] == 'C03' and f['rule'] == 'result-differs-from-declarative-meaning' and has_tags(it['wf']):
+            rp = {'kind': 'scenario', 'item': {k: it[k] for k in ('wf', 'oc', 'script', 'input', 'schedule', 'extra') if k in it}}
+            ctx.add('C15', 'tagged-workflow-result-differs-from-meaning', f['detail'][:160], rp)
